@@ -1,4 +1,4 @@
-\* negative control (finding F9): the writer as coded does not round-trip every inline image body
+\* negative control (finding F9): the writer before commits ab31f81/a9c15ec/f98abbe does not round-trip every inline image body
 \* (TLC exhibits the shortest one)
 SPECIFICATION Spec
 CONSTANTS
